@@ -890,7 +890,7 @@ int32_t pstm_mul_2(const pstm_int *a, pstm_int *b)
         }
 
         /* new leading digit? */
-        if (r != 0 && b->used != (PSTM_MAX_SIZE - 1))
+        if (r != 0)
         {
             /* add a MSB which is always 1 at this point */
             *tmpb = 1;
